@@ -173,6 +173,8 @@ class Program:
                 tree = ast.parse(data.decode('utf-8'), filename=f)
             except SyntaxError as e:
                 raise AnalysisError(f'cannot parse {f}: {e}')
+            from .inline import inline_new_helpers
+            self.inlined_calls = getattr(self, 'inlined_calls', 0) + inline_new_helpers(tree, rel)
             self.modules[rel] = ModuleInfo(rel, f, tree, is_pkg, data.decode('utf-8'))
         self.digest = h.hexdigest()
 
